@@ -2,6 +2,7 @@ import RexModel.Driver.Basic
 import RexModel.Compiled.Schedule
 import RexModel.Compiled.Ring
 import RexModel.Compiled.BufSize
+import RexModel.Compiled.Trace
 
 open Lean Rex.Driver Rex.Sched
 
@@ -35,7 +36,8 @@ def replay : Handler := fun j => do
   let i ← parseInst j
   let sizes ← fieldNats j "sizes"
   let start ← fieldNat j "start"
-  pure <| Json.mkObj [("ok", Json.bool (replayOk i sizes start)), ("consecutive", Json.bool (consecOk i sizes.length start))]
+  let sized := start == 0 && kindsOk i sizes.length && sizedOk (traceOf i 0) sizes.length sizes
+  pure <| Json.mkObj [("ok", Json.bool (replayOk i sizes start)), ("consecutive", Json.bool (consecOk i sizes.length start)), ("sized", Json.bool sized)]
 
 /-- {"cmd":"sched.bufsize", "pairs":[{"min_in":[..], "max_out":[..]}, ...]} → {"sizes":[..]} (model of `get_buffer_sizes`, one entry per pair) -/
 def bufsize : Handler := fun j => do
